@@ -300,6 +300,8 @@ def monitor_case(ops, obs, which):
             if fstate.get("truncated"):
                 V("C18", "file-lags-after-truncate", f"after a truncate of this file-backed arena the file is no longer the arena: reopening it as it is now gives a different state (open: {o.get('cr')})", i)
                 V("C15", "file-lags-after-truncate", f"after a truncate of this file-backed arena the file is no longer the arena: reopening it as it is now gives a different state (open: {o.get('cr')})", i)
+        if op == "crashcheck" and r == "ok" and o.get("cp", "ok") != "ok" and not fstate.get("tampered"):
+            V("C06", "reopened-op-" + o["cp"], f"killed after {ops[i-1].strip() if i > 0 else 'creation'}: the file opens again, but an operation on the reopened arena (a request the free list must serve / a release / discard_freelist) ends with {o['cp']}", i)
         if op == "close_last" and r == "ok":
             h_ = int(t[1])
             ent_ = live.get(h_)
